@@ -140,7 +140,7 @@ CHECKS.update({
          'an END line with labels and with or without expression - that renders an abstract program having a meaning (spec/Meaning.v: labels are offsets from the referring instruction, END-line labels the address past the code, dialect defaults for omitted modes and modifiers, lone-operand rule, fields modulo the core size, ORG/END entry point) '
          'is assembled by compile_warrior to exactly that code, entry point and comment metadata, for both dialects and every valid configuration; a concrete program exercising all of this is checked by vm_compute to meet the hypotheses. '
          'Also proved separately: lexer on any sequence of well-placed lexemes; default-modifier tables equal the reference tables; one substitution pass is token-wise and replaces every EQU name by its text; mnemonics recognised under every letter-casing; entry point lemma. '
-         'EQU: the reference substitutes names pass by pass with the definitions as written and evaluates the token list; the compiler uses its table of resolved values - both arrive at the same token list (C03Equ) and both evaluators give it the same value (C07Inverse), definitions that refer to each other along a rank pass the cycle check. FOR: a text whose tokens unroll block by block (C08) to such a document is assembled to the meaning of the unrolled program (C03_programs_with_for_partial), and for a block without labels or counter over unlabelled instruction and comment lines, count >= 1 from any expression over the EQU symbols in front, that relation is constructed rather than assumed (C03_programs_with_plain_for_partial, with an example; C03_programs_with_counter_for_partial for `c FOR count` whose body uses the counter in its operands, with an example; C03_programs_with_blocks_partial for ANY NUMBER of such blocks one after another, by induction over the blocks, with an example of two blocks), as it is for the comment idiom - a block with count <= 0 around any body (C03_programs_with_comment_block_partial, with an example). NOT proved: FOR blocks with block labels, labelled body lines or nesting and ;assert lines inside the end-to-end statement (kept as C03_full_statement; parts in C07, C08), EQU together with an END line. That statement is decided on every run by the two-stage correspondence: generated abstract programs rendered under several styles by the extracted renderer, assembled by gmars and by the extracted model, compared with the extracted meaning.'),
+         'EQU: the reference substitutes names pass by pass with the definitions as written and evaluates the token list; the compiler uses its table of resolved values - both arrive at the same token list (C03Equ) and both evaluators give it the same value (C07Inverse), definitions that refer to each other along a rank pass the cycle check. FOR: a text whose tokens unroll block by block (C08) to such a document is assembled to the meaning of the unrolled program (C03_programs_with_for_partial), and for a block without labels or counter over unlabelled instruction and comment lines, count >= 1 from any expression over the EQU symbols in front, that relation is constructed rather than assumed (C03_programs_with_plain_for_partial, with an example; C03_programs_with_counter_for_partial for `c FOR count` whose body uses the counter in its operands, with an example; C03_programs_with_blocks_partial for ANY NUMBER of such blocks one after another, by induction over the blocks, with an example of two blocks; C03_programs_with_blocks_reference_partial: the same with the counts given by the reference value of the count expression over the EQU definitions in front of each block, the agreement of the expander with it being proved, C08_block_count_partial), as it is for the comment idiom - a block with count <= 0 around any body (C03_programs_with_comment_block_partial, with an example). NOT proved: FOR blocks with block labels, labelled body lines or nesting and ;assert lines inside the end-to-end statement (kept as C03_full_statement; parts in C07, C08), EQU together with an END line. That statement is decided on every run by the two-stage correspondence: generated abstract programs rendered under several styles by the extracted renderer, assembled by gmars and by the extracted model, compared with the extracted meaning.'),
    design_ref='DESIGN.md 0.2, 5 C03', note=NOTE_STD + ' EQU/FOR/;assert programs are covered by differential testing against the by-construction meaning; the end-to-end theorem covers labelled instructions with ORG/END in every layout.',
    technique='Coq end-to-end theorem for EQU/FOR-free programs (positioned-parser symbolic execution by induction over documents, refinement of the compile stage to the independent meaning function, lexer lemma for arbitrary spacing) + compile-stage lemmas + per-run two-stage differential correspondence against the independent meaning function'),
  'C08': dict(
@@ -148,7 +148,7 @@ CHECKS.update({
          'compile_warrior gives the same result for both texts; THE PASSES ADD UP (C08_passes_partial): the driver returns exactly the unrolled stream whenever it has more than k passes; ONE PASS OF THE DRIVER (C08_pass_driver_partial), symbol scanner included: the scanner run symbolically over the lines in front of the block (labels, colons, comments, EQU values with comments skipped, redefinition error, END line hiding the block, the FOR itself); '
          'ONE PASS of the expander as a whole (C08_one_pass_partial) - for any lines in front of the first block, its header, a body of arbitrary lines with properly nested inner blocks, the closing ROF and the rest of the stream, the pass ends and sends exactly the front lines (labels re-attached), the block written out count times with the block labels in place, and the rest unchanged. Also, for every stream, label list and count: the body is sent count times with the counter replaced by 1..count (nothing for count 0) and all other tokens kept; '
          'from the ROF line on (also when it is the last line and lacks a newline) exactly the block is sent - first iteration with the labels written before the counter standing in front of the body line found for them, iterations 2..count plain, with a count below one only the labels - and then the rest is copied unchanged; '
-         'on the FOR line the count is the value of the expression over the pre-scanned EQU symbols and the predefined constants, the name before FOR is the counter, earlier names are block labels. A concrete program is shown to unroll and to be assembled like its unrolling BY the theorem. FOR THE SIMPLEST BLOCKS THE RELATION IS CONSTRUCTED (C08_plain_block_unrolls_partial): every block without labels or counter whose body is unlabelled lines not starting with FOR or ROF is replaced in one pass by its body written out count times, with a counter (`c FOR count`) the counter is replaced by 1 .. count (C08_counter_block_unrolls_partial) and each written-out line is the rendering of the abstractly substituted line of Render.unroll (C08_copy_renders_partial), and with a count <= 0 the block disappears whatever its body is (C08_zero_block_unrolls_partial: the comment idiom). '
+         'on the FOR line the count is the value of the expression over the pre-scanned EQU symbols and the predefined constants, the name before FOR is the counter, earlier names are block labels. A concrete program is shown to unroll and to be assembled like its unrolling BY the theorem. FOR THE SIMPLEST BLOCKS THE RELATION IS CONSTRUCTED (C08_plain_block_unrolls_partial): every block without labels or counter whose body is unlabelled lines not starting with FOR or ROF is replaced in one pass by its body written out count times, with a counter (`c FOR count`) the counter is replaced by 1 .. count (C08_counter_block_unrolls_partial) each written-out line is the rendering of the abstractly substituted line of Render.unroll (C08_copy_renders_partial), the count the expander evaluates over the symbols in front of the block is the reference value of the count expression (C08_block_count_partial), and with a count <= 0 the block disappears whatever its body is (C08_zero_block_unrolls_partial: the comment idiom). '
          'That a pass and the pass driver always end is part of C05. NOT proved: that the relation unrolls holds between the rendering of every abstract program and the rendering of its Render.unroll (each instance is a finite derivation), and the composition with the reference meaning (kept as C08_full_statement). That statement is decided on every run by the correspondence: generated programs (blocks in sequence, nesting to 3, counts 0..6 from literals and EQUs, counters in inner/outer expressions, block labels) and their extracted unrollings '
          'assembled by gmars and by the extracted model, compared with each other and with the extracted meaning.'),
    design_ref='DESIGN.md 0.2, 5 C08', note=NOTE_STD + ' The link between the abstract unroller and the token-level unrolling relation is covered by differential testing; the expander, the scanner and the pass driver are theorems.',
